@@ -368,3 +368,45 @@ def load_base_chain():
     base_info['digest'] = _sha256(data).hexdigest()[:16]
     _base = (data, chain)
     return _base
+
+
+# ---------------------------------------------------------------------------------------------------
+# headers "valid except for the proof-of-work rule, measured against the target the bits encode"
+# ---------------------------------------------------------------------------------------------------
+# The retarget result is rounded DOWN when it is written as compact bits; a hash between decode(bits) and the
+# un-rounded value fails lbrycrd's CheckProofOfWork.  The window is 2^-16 of the valid hashes at best (2^24 hashes
+# per header, 1.5 CPU-minutes in Python), so these were mined once, off-line, on top of fixed heights of the base
+# chain and are verified against it when they are loaded (stale entries are dropped, never re-mined in a check).
+BAND_HEADERS_HEX = {
+    12: '0100000039375157d65797d2db53968d02d320f846f9c030e83008db2786e12bc2ff4c330c0c0c0c0c0c0c0c0c0c0c0c'
+        '0c0c0c0c0c0c0c0c0c0c0c0c0c0c0c0c0c0c0c0c00000000000000000000000000000000000000000000000000000000'
+        '00000000c9be6959ffff00201d793300',
+    1050: '0100000012fd4025256dd8a31b4047e7c2d0562b291e9e04146d861a68f531540f2551181a1a1a1a1a1a1a1a1a1a1a1a'
+        '1a1a1a1a1a1a1a1a1a1a1a1a1a1a1a1a1a1a1a1a04040404040404040404040404040404040404040404040404040404'
+        '0404040498107159ffff002008152b00',
+    2003: '0100000064b646c4e6b4702be3e68ba4eea52f4e7d73fa9a4db3294adf48c23dc52f1775d3d3d3d3d3d3d3d3d3d3d3d3'
+        'd3d3d3d3d3d3d3d3d3d3d3d3d3d3d3d3d3d3d3d307070707070707070707070707070707070707070707070707070707'
+        '0707070780e97859ffff00209b0cc102',
+}
+_band = None
+
+
+def band_headers():
+    """{height: header} - each links to base[height-1], carries exactly the demanded bits, and its PoW hash lies
+    above decode(bits) but (safely) below the un-rounded retarget value."""
+    global _band
+    if _band is None:
+        data, _chain = load_base_chain()
+        _band = {}
+        for h, hx in BAND_HEADERS_HEX.items():
+            hdr = bytes.fromhex(hx)
+            parent, grand = data[(h - 1) * HEADER_SIZE:h * HEADER_SIZE], data[(h - 2) * HEADER_SIZE:(h - 1) * HEADER_SIZE]
+            if len(hdr) != HEADER_SIZE or len(parent) != HEADER_SIZE or len(grand) != HEADER_SIZE:
+                continue
+            pt, pb = time_bits(parent)
+            full = next_target(pb, pt, time_bits(grand)[0])
+            bits = time_bits(hdr)[1]
+            if hdr[4:36] == sha256d(parent) and bits == encode_compact(full) and \
+                    decode_compact(bits) < pow_int(hdr) <= full - (full >> 40):
+                _band[h] = hdr
+    return _band
